@@ -10,6 +10,9 @@ pub struct SeqGroup {
     step: u64,
     // 是否正在添加,用户防止多次申请缓存
     next_adding: bool,
+    // the last id handed out: two refills can be answered out of order, ids must still only go up
+    #[serde(default)]
+    last_id: u64,
 }
 
 impl SeqGroup {
@@ -20,19 +23,39 @@ impl SeqGroup {
             step,
             use_a: false,
             next_adding: false,
+            last_id: 0,
         }
     }
     pub fn next_id(&mut self) -> Option<u64> {
+        if self.range_a.has_next() && self.range_b.has_next() {
+            //both buffers hold ids: the lower ones first
+            self.use_a = self.range_a.start <= self.range_b.start;
+        }
         let v = self.do_next_id();
-        if v.is_none() {
+        let v = if v.is_none() {
             self.switch_state();
             self.do_next_id()
         } else {
             v
+        };
+        if let Some(id) = v {
+            self.last_id = id;
         }
+        v
     }
 
     pub fn apply_range(&mut self, start: u64, len: u64) {
+        //a range that was reserved before the one in use but arrives after it: its ids lie below ids that have
+        //been handed out already, they are given up (ids stay unique and increasing)
+        let (start, len) = if start <= self.last_id {
+            let skip = (self.last_id + 1 - start).min(len);
+            (start + skip, len - skip)
+        } else {
+            (start, len)
+        };
+        if len == 0 {
+            return;
+        }
         if self.use_a && !self.range_a.has_next() || !self.use_a && self.range_b.has_next() {
             self.range_a.renew(start, len);
         } else {
